@@ -321,10 +321,24 @@ pub fn events(args: &Args) -> i32 {
                 input.extend(one);
             } else {
                 if let Some((x, y)) = near_miss[i] {
-                    // replace the argument by a string over the delimiter's own letters
+                    // replace the argument by near misses of the delimiter: proper prefixes and proper
+                    // suffixes of it glued together (the classic stress for a streaming matcher), or a
+                    // random string over its two letters
                     arg.clear();
-                    for _ in 0..rng.below(12) {
-                        arg.push(tk("c", if rng.chance(2, 3) { x } else { y }));
+                    if rng.chance(3, 4) {
+                        for _ in 0..(1 + rng.below(4)) {
+                            let n = dl.len();
+                            let k = 1 + rng.below(n as u64 - 1) as usize;
+                            if rng.chance(1, 2) {
+                                arg.extend(dl[..k].iter().cloned());
+                            } else {
+                                arg.extend(dl[n - k..].iter().cloned());
+                            }
+                        }
+                    } else {
+                        for _ in 0..rng.below(12) {
+                            arg.push(tk("c", if rng.chance(2, 3) { x } else { y }));
+                        }
                     }
                 }
                 input.extend(arg);
